@@ -249,5 +249,11 @@ func (fs *FS) rename(oldname, newname string) error {
 			return err
 		}
 	}
-	return hackpadfs.Remove(oldMount, oldSubPath)
+	err = hackpadfs.Remove(oldMount, oldSubPath)
+	if err != nil && !replacing {
+		// the source cannot be removed (e.g. a read-only file system): do not leave the copy behind either
+		_ = newFile.Close()
+		_ = hackpadfs.Remove(newMount, newSubPath)
+	}
+	return err
 }
